@@ -29,7 +29,24 @@ def sched_histories(rp, seed, tier):
                       'priorities 0..2) of the real Continuous scheduler driven through the real loop body of _schedule_tasks' % (n, n_hist))
 
 
-CHECKS = {'sched-histories': sched_histories}
+def bf_histories(rp, seed, tier):
+    from harness import bf_sim
+    viol, n = [], 0
+    for name, ops in bf_sim.DIRECTED:
+        n += 1
+        probs = bf_sim.run_history(rp, ops)
+        if probs:
+            viol.append(dict(id='directed:' + name, detail='; '.join(probs[:3]), input=dict(history=ops)))
+    n_hist = 300 if tier == 'quick' else 3000
+    for k, probs, ops in bf_sim.random_histories(rp, n_hist, 4711 + seed):
+        viol.append(dict(id='random-%04d' % k, detail='; '.join(probs[:3]), input=dict(history=ops)))
+        if len(viol) > 5: break
+    return dict(cases=n + n_hist, violations=viol,
+                bound='%d directed + %d random histories (<= 12 operations, 3 pilots of 1/2/4 cores, tasks of 1..3 cores) of the real '
+                      'Backfilling scheduler: add / remove / re-add pilots, pilot state notifications, submissions, task completions' % (n, n_hist))
+
+
+CHECKS = {'sched-histories': sched_histories, 'bf-histories': bf_histories}
 
 
 def main():
